@@ -397,6 +397,8 @@ int main(int argc, char **argv)
     char const *journal = NULL;
     unsigned case_timeout = 0;
     uint64_t spread = 0; /* run about this many cases spread evenly over the plan (coverage measurement) */
+    int hashed = 0;      /* shares of the case list by hash of the case number instead of by stride: a side configuration that runs only k of n
+                            shares must not alias with a periodic case plan (case number -> function / container kind) */
     vf.seed = 1;
     vf.nworkers = 1;
     vf.only = -1;
@@ -419,6 +421,7 @@ int main(int argc, char **argv)
         else if (!strcmp(a, "--case-timeout")) { case_timeout = (unsigned)strtoul(v, NULL, 0); ++i; }
         else if (!strcmp(a, "--spread")) { spread = strtoull(v, NULL, 0); ++i; }
         else if (!strcmp(a, "--explain")) { vf.explain = 1; }
+        else if (!strcmp(a, "--hashed-shares")) { hashed = 1; }
         else { fprintf(stderr, "vf: unknown option %s\n", a); return 2; }
     }
     if (vf.nworkers == 0) { vf.nworkers = 1; }
@@ -448,7 +451,7 @@ int main(int argc, char **argv)
     {
         step = vf.nworkers;
         first = vf.worker;
-        if (spread) { step = 1; first = 0; }
+        if (spread || hashed) { step = 1; first = 0; }
         if (vf.start > first)
         {
             uint64_t k = (vf.start - first + step - 1) / step;
@@ -459,6 +462,7 @@ int main(int argc, char **argv)
     {
         vf_rng r;
         uint64_t c = ci;
+        if (hashed && !spread && vf.only < 0 && (vf_hash64(0x5348415245ULL, ci) >> 17) % vf.nworkers != vf.worker) { continue; }
         if (spread && vf.only < 0)
         {
             /* coverage measurement: a pseudo-random spread over the plan (a fixed stride would alias with periodic plans) */
